@@ -331,6 +331,20 @@ class HMat:
     def has_attr(self, name):
         return name in ("shape", "ndim", "dtype", "copy")
 
+    def getitem(self, idx):
+        """Sub-blocks of an abstract matrix are only shapes (their entries are not modelled)."""
+        t = idx if isinstance(idx, tuple) else (idx,)
+        t = t + (slice(None),) * (2 - len(t))
+        shp = []
+        for i, d in zip(t, self.shape):
+            if isinstance(i, slice):
+                if i.step not in (None, 1):
+                    raise OutOfReach("strided slice of an abstract matrix")
+                lo = 0 if i.start is None else i.start
+                hi = d if i.stop is None else i.stop
+                shp.append(hi - lo)
+        return HSub(self, idx, tuple(shp))
+
     def __add__(self, o):
         if isinstance(o, HMat):
             return HMat(self.p + o.p)
@@ -361,6 +375,36 @@ class HMat:
 
     def __repr__(self):
         return f"HMat({self.p})"
+
+
+class HSub:
+    """A slice of an abstract quaternion matrix: shape only."""
+    qv_value = True
+
+    def __init__(self, parent, idx, shape):
+        self.parent, self.idx, self.shape = parent, idx, shape
+        self.ndim = len(shape)
+        self.dtype = QUAT
+
+    def has_attr(self, name):
+        return name in ("shape", "ndim", "dtype")
+
+
+class RVec:
+    """A real 1-D work vector in the matrix-level domain (e.g. e1): length only, entries by assignment."""
+    qv_value = True
+
+    def __init__(self, n):
+        self.shape = (n,)
+        self.ndim = 1
+        self.dtype = F64
+        self.entries = {}
+
+    def setitem(self, i, v):
+        self.entries[i if isinstance(i, int) else repr(i)] = v
+
+    def has_attr(self, name):
+        return name in ("shape", "ndim", "dtype")
 
 
 # -- generic heap ---------------------------------------------------------------------------------
